@@ -121,11 +121,7 @@ def run(repo, res):
                           'by identity of the evaluated receiver, a fresh object per evaluation loses every instance '
                           'attribute' % unparse(c.func), sample='%s(...) inside memoised %s' % (unparse(c.func), fi.qual if fi else '?'))
     res.count('object_constructors', nctor, floor=2)
-    ga = repo.method('supp/scope.py', 'FuncScope', 'get_argument')
-    t = unparse(ga)
-    ok = 'arg.idx == [0]' in t and 'isinstance(self.parent, ClassScope)' in t and 'self.parent.resolve(ctx).call(ctx)' in t
-    res.check('C06-R4', 'first parameter of a method is the instance', ok, 'supp/scope.py', ga.lineno,
-              'get_argument must return parent.resolve(ctx).call(ctx) exactly for parameter index [0] under a class scope')
+    # (what the first parameter of a method evaluates to is decided by the first-parameter scenarios of the descriptor model, below)
     # parameter indices (E1): the i-th positional parameter (positional-only ones first) carries idx [i]; get_argument
     # recognises the instance parameter by idx == [0]
     from .. import rules_e1 as R
@@ -150,6 +146,20 @@ def run(repo, res):
               'method (idx [0]) is what binds `self` to the instance - with a positional-only self every `self.x = ...` is lost'
               % ((bad[0][2], bad[0][0], bad[0][3], bad[0][4]) if bad else ('', '', '', '')),
               sample='%d parameter bindings carry their signature position as idx' % nidx)
+    # every assignment through an attribute target is recorded with the module (and only assignments are)
+    arecs = R.attribute_target_records(repo)
+    for (cls, path), r in sorted(arecs.items()):
+        key = '%s records the attribute target %s' % (R.method_name(repo, cls), path)
+        if r.get('spurious') is not None and 'bare annotation' in path:
+            res.check('C06-R4', '%s nothing is recorded for %s' % (R.method_name(repo, cls), path), not r['spurious'], r['line'][0], r['line'][1],
+                      'a bare annotation `self.x: T` is recorded as an instance assignment: go-to-definition on obj.x lands on the '
+                      'annotation although Python finds the class attribute')
+            continue
+        res.check('C06-R4', key, not r['missing'], r['line'][0], r['line'][1],
+                  'an attribute bound through the target %s of a %s statement (`with cm as self.fd`, `for self.i in xs`, `self.a, self.b = '
+                  'v`) is not recorded as an instance assignment: it is missing from the attribute proposals of the instance' % (path, cls),
+                  sample='%s: attribute targets recorded' % cls)
+    res.count('attribute_target_kinds', len(arecs), floor=8)
     asg = repo.method('supp/scope.py', 'SourceScope', 'assigns')
     from .. import api_model
     api_model.apply(res, api_model.assigns_model(repo), {'assigns': 'C06-R4'}, 'supp/scope.py', asg.lineno)
@@ -242,4 +252,4 @@ def check_dispatch(repo, res, facts):
     api_model.apply(res, [r for r in api_model.assist_model(repo) if 'attribute branch' in r[1]], {'source': 'C06-R3'},
                     'supp/assistant.py', 0)
     api_model.apply(res, api_model.location_model(repo), {'asks': 'C06-R3', 'import': 'C06-R3'}, 'supp/assistant.py', 0)
-    api_model.apply(res, api_model.descriptor_model(repo), {'descriptor': 'C06-R3'}, 'supp/scope.py', 0)
+    api_model.apply(res, api_model.descriptor_model(repo), {'descriptor': 'C06-R3', 'first-param': 'C06-R4'}, 'supp/scope.py', 0)
